@@ -282,12 +282,12 @@ def table_task(task):
                         write_topology_report(path, os.path.join(tmp, "rep.tsv"), topologies_archive=arc, top_trees=50)
                         with tarfile.open(arc, "r:gz") as tf:
                             files = {m.name.split("/")[1]: tf.extractfile(m).read().decode() for m in tf.getmembers()}
-                        table = pd.read_csv(io.StringIO(files["t_0_results_table.tsv"]), sep="\t", float_precision="round_trip")
+                        table = pd.read_csv(io.StringIO(files["t_0_results_table.tsv"]), sep="\t", float_precision="round_trip", keep_default_na=False)
                         newick = files["t_0.nwk"].strip()
                         # every other archived topology: table consistent with its own tree, values those of its clones
                         k = 1
                         while "t_%d.nwk" % k in files:
-                            tk = pd.read_csv(io.StringIO(files["t_%d_results_table.tsv" % k]), sep="\t", float_precision="round_trip")
+                            tk = pd.read_csv(io.StringIO(files["t_%d_results_table.tsv" % k]), sep="\t", float_precision="round_trip", keep_default_na=False)
                             nk = files["t_%d.nwk" % k].strip()
                             case["archived_topology"] = k
                             part.count("archived_topologies_checked")
@@ -395,11 +395,11 @@ def real_task(task):
                     write_topology_report(path, os.path.join(tmp, "rep.tsv"), topologies_archive=arc, top_trees=50)
                     with tarfile.open(arc, "r:gz") as tf:
                         files = {m.name.split("/")[1]: tf.extractfile(m).read().decode() for m in tf.getmembers()}
-                    table = pd.read_csv(io.StringIO(files["t_0_results_table.tsv"]), sep="\t", float_precision="round_trip")
+                    table = pd.read_csv(io.StringIO(files["t_0_results_table.tsv"]), sep="\t", float_precision="round_trip", keep_default_na=False)
                     newick = files["t_0.nwk"].strip()
                     k = 1
                     while "t_%d.nwk" % k in files:
-                        tk = pd.read_csv(io.StringIO(files["t_%d_results_table.tsv" % k]), sep="\t", float_precision="round_trip")
+                        tk = pd.read_csv(io.StringIO(files["t_%d_results_table.tsv" % k]), sep="\t", float_precision="round_trip", keep_default_na=False)
                         nk = files["t_%d.nwk" % k].strip()
                         case["archived_topology"] = k
                         part.count("archived_topologies_checked")
